@@ -178,8 +178,32 @@ class KeyObjectHistories:
         return {"canon": hist, "viols": viols, "label": label}
 
 
+def _ev_hash(i):
+    data = (b"C05-ev-%d" % i) * (1 + i % 3)
+    return chk_hash_data(data)
+
+
+def chk_hash_data(data):
+    from btc_hd_wallet import helper, ripemd
+    viols = []
+    st, r = attempt(ripemd.ripemd160, data)
+    if st != "ok" or r != enc.ripemd160(data):
+        viols.append(V(P + ":ripemd160:revisit:wrong-digest", "ripemd160 of %r" % data[:16]))
+    st, r = attempt(helper.hash160, data)
+    if st != "ok" or r != enc.hash160(data):
+        viols.append(V(P + ":hash160:revisit:wrong-digest", "hash160 of %r" % data[:16]))
+    return viols
+
+
 def execute(case):
     k = case.get("k")
+    if "hist" in case and case.get("layer") == "hash-revisits":
+        from ..core import isolated
+        from ..bfs import PureCalls
+        r = isolated(PureCalls(10**6, _ev_hash, P).run, case["hist"])
+        for v in r["viols"]:
+            v["case"] = case
+        return R(r["label"], viols=r["viols"])
     if "hist" in case:
         from ..core import isolated
         r = isolated(KeyObjectHistories().run, case["hist"])
@@ -243,4 +267,9 @@ def run(ctx):
     ctx.product("hash-all-lengths", cases, execute)
     from ..bfs import bfs
     bfs(ctx, "key-object-histories", KeyObjectHistories(), 3 if ctx.thorough else 2)
+    from ..bfs import long_histories
+    long_histories(ctx, "key-object-histories+long", KeyObjectHistories(), rotations=8 if ctx.thorough else 4, rounds=2)
+    from ..bfs import eviction_probe, PureCalls
+    eviction_probe(ctx, "hash-revisits", PureCalls(10**6, _ev_hash, P), lambda i: i,
+                   sizes=(1, 2, 3, 4, 8, 9, 16, 17, 32, 33, 64, 65, 128, 129, 256, 257, 512, 513) + ((1024, 1025, 2048, 2049) if ctx.thorough else ()))
     return {}
